@@ -259,10 +259,13 @@ def run(F, rep, tier):
     try:
         from . import arity
         arity.rule(F, rep, "C01.R5")
+        arity.rule_default_env(F, rep, "C09.R4")
     except ImportError:
         rep.note("C01.R5 (arity tables) not built yet")
     rule_r6(F, rep)
-    from . import c19, c20
+    from . import c19, c20, c06
+    c06.rule_r1(F, rep)      # a non-finite number reaching the renderers / comparisons panics (unwrap of partial_cmp, `{:e}` parsing)
+    c06.rule_r1b(F, rep)
     c19.rule_r5(F, rep, "C19.R5")
     c20.rule_r6(F, rep)
     rep.assume("evaluator data-stack balance, index/arithmetic-overflow panics and unreachable!() reachability are "
